@@ -736,6 +736,34 @@ def install(reg):
 
     reg.binop_models[(CeilLog2Val, operator.pow)] = pow_model
 
+    # int.bit_length() and 1 << e on symbolic non-negative integers (bounded by 2**MAX_LOG2, call-site obligations)
+    def sym_attr(interp, base, name):
+        if name == "bit_length" and base.is_int:
+            def bit_length():
+                x = base.t
+                interp.ctx.prove("call int.bit_length: 0 <= x < 2**32", z3.And(x >= 0, x < 2 ** (MAX_LOG2 + 1)), kind="call-pre", assume_after=False)
+                r = z3.IntVal(MAX_LOG2 + 1)
+                for e in range(MAX_LOG2, -1, -1):
+                    r = z3.If(x < 2 ** e, z3.IntVal(e), r)      # smallest e with x < 2**e
+                return Sym(r)
+            bit_length._sym_ok = True
+            return bit_length
+        return NotImplemented
+
+    reg.attr_models[Sym] = sym_attr
+
+    def lshift_model(interp, op, a, b):
+        if isinstance(b, Sym) and b.is_int and not contains_sym(a) and isinstance(a, int):
+            e = b.t
+            interp.ctx.prove("call <<: 0 <= shift <= 40", z3.And(e >= 0, e <= 40), kind="call-pre", assume_after=False)
+            r = z3.IntVal(a * 2 ** 40)
+            for q in range(39, -1, -1):
+                r = z3.If(e == q, z3.IntVal(a * 2 ** q), r)
+            return Sym(r)
+        return NotImplemented
+
+    reg.binop_models[(Sym, operator.lshift)] = lshift_model
+
     def m_real(interp, x):
         if isinstance(x, ComplexT):
             return x.re
